@@ -17,7 +17,12 @@ RULE = ('pairs of selectors (A, B) drawn from the whole grammar (spell.g_complex
         'aliases) on documents with forms, iframes and foreign-namespace content built as html, html5, xhtml and xml; the '
         'Boolean laws are evaluated on PY\'s own results (union, complement, intersection, :where/:matches = :is, '
         'monotonicity) and every selector involved is also compared PY vs the Lean matcher model. Non-trivial = the '
-        'union is non-empty and differs from at least one side.')
+        'union is non-empty and differs from at least one side. Besides pairs of complete selectors, forgiving lists: '
+        ':is()/:where() lists of 2-5 slots mixing complete alternatives with the slots only a forgiving list accepts '
+        '(empty, blank, comment-only, and a chain that ends in a dangling > + ~ before the comma), at any position, '
+        'nested in :not / :is / :where / a top-level list / a compound; the same laws (n-ary union over the slots, '
+        'split, permutation, monotone per slot, complement, De Morgan, intersection, :where = :is) on PY results, '
+        'spellings the parser rejects are skipped and counted.')
 
 NS = {'svg': gen.SVG, 'h': gen.XHTML}
 CUSTOM = {':--c1': 'div > *', ':--c2': ':is(input, button):enabled'}
@@ -158,6 +163,193 @@ def laws(r, top, ns, names=None):
     return out, used, nontrivial
 
 
+# ---------------------------------------------------------------- forgiving lists
+# A forgiving list (:is / :where) accepts slots that are not selectors on their own: an empty slot and a chain that
+# ends in a combinator directly before the comma.  The pairs above never contain such a slot because A and B have to
+# be complete selectors.  Here lists are built from SLOTS and the same laws are stated slot-wise.  Nothing is assumed
+# about what a forgiven slot selects: every expected set is composed from PY's own results on smaller lists.
+
+COMBS = [' >', ' +', ' ~', '>', ' > ', ' ~ ', '+ ']
+
+
+def slot(r, names):
+    """(kind, text): 'real' = a complete alternative, 'empty' = nothing / blanks / a comment, 'dangling' = a complete
+    alternative followed by a combinator (the chain may itself be several compounds long)."""
+    x = r.random()
+    if x < 0.4:
+        return ('real', sel_text(r, names) if r.random() < 0.3 else light(r, names))
+    if x < 0.55:
+        return ('empty', r.choice(['', '', ' ', '  ', '/**/', ' /* x */ ']))
+    a = light(r, names) if r.random() < 0.75 else sel_text(r, names)
+    if r.random() < 0.15:
+        # the chain carries a forgiving list of its own
+        a = f'{r.choice([":is", ":where"])}({spell_slots([slot(r, names) for _ in range(2)], r)}){r.choice([" ", " > "])}{a}'
+    return ('dangling', a + r.choice(COMBS))
+
+
+def spell_slots(slots, r=None):
+    """Text of the list.  A dangling chain directly before the closing parenthesis is a syntax error when other slots
+    precede it, therefore such a list is closed with one more (empty) slot."""
+    slots = list(slots)
+    if len(slots) > 1 and slots[-1][0] == 'dangling':
+        slots.append(('empty', ''))
+    sep = ', ' if r is None else r.choice([', ', ', ', ',', ' , '])
+    return sep.join(t for _, t in slots)
+
+
+def forgiving_instances(r, names, compiles):
+    """One list and the law instances about it: (name, lhs, rel, rhs) over expressions
+    ['S', selector] set selected | ['L', selector] list in result order | ['U', e...] | ['I', e...] | ['C', e] complement
+    in what '*' selects | ['D', e] the set in document order.  `compiles(selector)` filters the spellings."""
+    for _ in range(30):
+        n = r.choice([2, 2, 3, 3, 4, 5])
+        slots = [slot(r, names) for _ in range(n)]
+        kinds = {k for k, _ in slots}
+        if 'real' not in kinds or kinds == {'real'}:
+            continue
+        fn = r.choice([':is', ':where'])
+        fl = f'{fn}({spell_slots(slots, r)})'
+        if compiles(fl):
+            break
+    else:
+        return None, [], {}
+    other = ':where' if fn == ':is' else ':is'
+    S = lambda s: ['S', s]
+
+    def single(sl):
+        """The list that holds only this slot."""
+        for cand in (f'{fn}({sl[1]})', f'{fn}({sl[1]}, )'):
+            if compiles(cand):
+                return cand
+        return None
+    inst = []
+    singles = [single(sl) for sl in slots]
+    if all(singles):
+        inst.append(('forgiving: fn(s1, .., sn) = fn(s1) ∪ .. ∪ fn(sn)', S(fl), '==', ['U'] + [S(x) for x in singles]))
+        inst.append(('forgiving: :not(fn(s1, .., sn)) = :not(fn(s1)) ∩ .. ∩ :not(fn(sn))', S(f':not({fl})'), '==',
+                     ['I'] + [S(f':not({x})') for x in singles]))
+    for sl, one in zip(slots, singles):
+        if sl[0] == 'real' and one:
+            inst.append(('forgiving: adding slots never removes a result, fn(si) ⊆ fn(s1, .., sn)', S(one), '<=', S(fl)))
+    # drop one slot: the shorter list selects a subset
+    k = r.randrange(len(slots))
+    shorter = f'{fn}({spell_slots(slots[:k] + slots[k + 1:], r)})'
+    inst.append(('forgiving: adding slots never removes a result, fn(list without one slot) ⊆ fn(list)', S(shorter), '<=', S(fl)))
+    # split
+    k = r.randrange(1, len(slots))
+    l1, l2 = f'{fn}({spell_slots(slots[:k], r)})', f'{fn}({spell_slots(slots[k:], r)})'
+    inst.append(('forgiving: fn(L1, L2) = fn(L1) ∪ fn(L2)', S(fl), '==', ['U', S(l1), S(l2)]))
+    # permutation
+    perm = slots[:]
+    r.shuffle(perm)
+    inst.append(('forgiving: the order of the slots does not matter', S(f'{fn}({spell_slots(perm, r)})'), '==', S(fl)))
+    # complement, intersection, the other spelling
+    inst.append(('forgiving: :not(fn(L)) = complement of fn(L)', S(f':not({fl})'), '==', ['C', S(fl)]))
+    x = r.choice(['div', 'input', '*', 'p', 'span', 'li'] + list(names or [])[:8])
+    inst.append(('forgiving: X fn(L) = X ∩ fn(L)', S(f'{x}{fl}'), '==', ['I', S(x), S(fl)]))
+    inst.append(('forgiving: :where(L) = :is(L)', ['L', f'{other}({fl[len(fn) + 1:-1]})'], '==', ['L', fl]))
+    # the list as one alternative among others
+    for _ in range(10):
+        a = sel_text(r, names)
+        if compiles(a):
+            break
+    else:
+        a = '*'
+    outer = r.choice([':is', ':where'])
+    inst.append(('forgiving: outer(A, fn(L)) = outer(A) ∪ fn(L)', S(f'{outer}({a}, {fl})'), '==', ['U', S(f'{outer}({a})'), S(fl)]))
+    inst.append(('forgiving: outer(fn(L), A) = fn(L) ∪ outer(A)', S(f'{outer}({fl}, {a})'), '==', ['U', S(fl), S(f'{outer}({a})')]))
+    inst.append(('forgiving: :not(A, fn(L)) = complement of :is(A) ∪ fn(L)', S(f':not({a}, {fl})'), '==',
+                 ['C', ['U', S(f':is({a})'), S(fl)]]))
+    inst.append(('forgiving: "A, fn(L)" = A ∪ fn(L) (document order)', ['L', f'{a}, {fl}'], '==', ['D', ['U', S(a), S(fl)]]))
+    inst.append(('forgiving: :not(:not(fn(L))) = fn(L)', S(f':not(:not({fl}))'), '==', S(fl)))
+    shape = {'dangling_before_real': any(p[0] == 'dangling' and q[0] == 'real' for p, q in zip(slots, slots[1:])),
+             'empty_slot': 'empty' in kinds, 'dangling_slot': 'dangling' in kinds, 'slots': len(slots),
+             'chains': [t for k_, t in slots if k_ == 'dangling']}
+    return fl, inst, shape
+
+
+def selectors_of(e):
+    if e[0] in ('S', 'L'):
+        return [e[1]]
+    return [s for sub in e[1:] for s in selectors_of(sub)]
+
+
+def evaluate(e, select, order):
+    """Value of an expression; `select(selector)` -> list of element keys, `order` maps key -> document position."""
+    op = e[0]
+    if op == 'S':
+        return set(select(e[1]))
+    if op == 'L':
+        return list(select(e[1]))
+    if op == 'U':
+        return set().union(*[set(evaluate(x, select, order)) for x in e[1:]])
+    if op == 'I':
+        vals = [set(evaluate(x, select, order)) for x in e[1:]]
+        return set.intersection(*vals)
+    if op == 'C':
+        return set(select('*')) - set(evaluate(e[1], select, order))
+    if op == 'D':
+        return sorted(evaluate(e[1], select, order), key=lambda i: order[i])
+    raise ValueError(op)
+
+
+def holds(inst, select, order):
+    _, lhs, rel, rhs = inst
+    a, b = evaluate(lhs, select, order), evaluate(rhs, select, order)
+    return a <= b if rel == '<=' else a == b
+
+
+def forgiving_laws(r, top, ns, names, state):
+    """Evaluate the forgiving-list laws on PY. Returns (violations, selectors for the PY-vs-model comparison)."""
+    ccache = {}
+
+    def compiles(sel):
+        if sel not in ccache:
+            try:
+                sv.compile(sel, ns, custom=CUSTOM)
+                ccache[sel] = True
+            except sv.SelectorSyntaxError:
+                ccache[sel] = False
+        return ccache[sel]
+    fl, inst, shape = forgiving_instances(r, names, compiles)
+    if fl is None:
+        return [], []
+    scache = {}
+
+    def select(sel):
+        if sel not in scache:
+            scache[sel] = [id(e) for e in sv.select(sel, top, namespaces=ns, custom=CUSTOM)]
+        return scache[sel]
+    order = {id(e): i for i, e in enumerate(gen.elements(top))}
+    out = []
+    state['f_lists'] += 1
+    for key in ('dangling_before_real', 'empty_slot', 'dangling_slot'):
+        state['f_' + key] += bool(shape[key])
+    for ins in inst:
+        sels = [s for e in (ins[1], ins[3]) for s in selectors_of(e)]
+        if not all(compiles(s) for s in sels):
+            state['f_skipped'] += 1          # the parser does not accept one of the spellings: nothing to compare
+            continue
+        state['f_instances'] += 1
+        if not holds(ins, select, order):
+            out.append({'law': ins[0], 'lhs': ins[1], 'rel': ins[2], 'rhs': ins[3], 'list': fl})
+    got = select(fl)
+    state['f_nonempty'] += bool(got)
+    # live = the list selects something AND the head of some dangling chain selects something too (a chain that is
+    # wrongly kept, dropped late or attached elsewhere would then change the result)
+    live = False
+    for c in shape['chains']:
+        head = c.rstrip().rstrip('>+~').rstrip()
+        if got and compiles(head) and select(head):
+            live = True
+    state['f_live'] += live
+    used = [fl] + [s for s in scache if s != fl and s != '*' and fl in s][:2]
+    return out, used
+
+
+FORGIVING_PER_DOC = 3
+
+
 def make_cases_factory(state):
     def make_cases(rng, n):
         cases = []
@@ -168,6 +360,11 @@ def make_cases_factory(state):
             try:
                 names = sorted({e.name for e in gen.elements(soup)})
                 bad, used, nontrivial = laws(rng, soup, ns, names)
+                fused = []
+                for _ in range(FORGIVING_PER_DOC):
+                    fbad, fu = forgiving_laws(rng, soup, ns, names, state)
+                    bad += fbad
+                    fused += fu
             except Exception as e:
                 state['exceptions'].append({'kind': kind, 'tree': top, 'error': repr(e)})
                 continue
@@ -176,7 +373,7 @@ def make_cases_factory(state):
             for b in bad:
                 b.update({'kind': kind, 'tree': top, 'ns': ns})
                 state['law_bad'].append(b)
-            for sel in used[:6]:
+            for sel in used[:6] + fused[:3]:
                 cases.append({'kind': kind, 'tree': top, 'selector': sel, 'ns': ns, 'custom': CUSTOM,
                               'queries': [('select', [], 0)]})
         return cases[:n]
@@ -184,12 +381,20 @@ def make_cases_factory(state):
 
 
 def run(chk):
-    state = {'laws': 0, 'nontrivial': 0, 'law_bad': [], 'exceptions': []}
+    state = {'laws': 0, 'nontrivial': 0, 'law_bad': [], 'exceptions': [], 'f_lists': 0, 'f_instances': 0, 'f_skipped': 0,
+             'f_nonempty': 0, 'f_live': 0, 'f_dangling_before_real': 0, 'f_empty_slot': 0, 'f_dangling_slot': 0}
     orig_finish = chk.finish
 
     def finish(**kw):
         chk.coverage.update({'law_instances': state['laws'], 'law_nontrivial': state['nontrivial'],
-                             'law_violations': len(state['law_bad']), 'py_exceptions': len(state['exceptions'])})
+                             'law_violations': len(state['law_bad']), 'py_exceptions': len(state['exceptions']),
+                             'forgiving_lists': state['f_lists'], 'forgiving_law_instances': state['f_instances'],
+                             'forgiving_instances_skipped_parser_rejects_a_spelling': state['f_skipped'],
+                             'forgiving_lists_selecting_something': state['f_nonempty'],
+                             'forgiving_lists_live_dangling_chain': state['f_live'],
+                             'forgiving_lists_with_dangling_chain_before_an_alternative': state['f_dangling_before_real'],
+                             'forgiving_lists_with_empty_slot': state['f_empty_slot'],
+                             'forgiving_lists_with_dangling_chain': state['f_dangling_slot']})
         for i, b in enumerate(state['law_bad'][:5]):
             chk.violation(f'law{i}', {'what': 'Boolean law fails on PY results', **b}, concrete=True)
         for i, b in enumerate(state['exceptions'][:2]):
@@ -197,7 +402,7 @@ def run(chk):
         kw['distinct'] = max(kw.get('distinct', 0), state['nontrivial'])
         return orig_finish(**kw)
     chk.finish = finish
-    return common_match.run(chk, PID, SOURCES, make_cases_factory(state), 1800, 90000, RULE,
+    return common_match.run(chk, PID, SOURCES, make_cases_factory(state), 2700, 90000, RULE,
                             'SoupVerif.Properties.C05 / correspondence PY select ≡ Model select (full grammar)')
 
 
@@ -207,6 +412,14 @@ def replay(chk, path):
     if 'law' in data:
         top = gen.build_doc(data['kind'], __import__('matchcorr')._untuple(data['tree']))
         ns = data['ns']
+        if 'lhs' in data:
+            print(json.dumps({k: data[k] for k in ('law', 'list', 'lhs', 'rel', 'rhs')}, ensure_ascii=False))
+            order = {id(e): i for i, e in enumerate(gen.elements(top))}
+            select = lambda s: [id(e) for e in sv.select(s, top, namespaces=ns, custom=CUSTOM)]
+            if not holds((data['law'], data['lhs'], data['rel'], data['rhs']), select, order):
+                print(f'VIOLATION property={PID} replay={path}')
+                return 1
+            return 0
         print(json.dumps({k: data[k] for k in ('law', 'A', 'B', 'X')}))
         a, b, x = data['A'], data['B'], data['X']
         f = lambda s: [id(e) for e in sv.select(s, top, namespaces=ns, custom=CUSTOM)]
